@@ -24,7 +24,7 @@ CONSTANTS NB = 2
  WL = 1
  BLCK = 2
  tWTRdev = 1
- tRFCdev = 5
+ tRFCdev = 6
  BmRefreshFirst = TRUE
 INVARIANT Legal
 VIEW View
